@@ -187,7 +187,7 @@ theorem stepChopen_inv (s : St) (r : Nat) (via : Nat) (h : AllRa RaInv s) : AllR
   all_goals first
     | exact h
     | exact h.of_ras rfl
-    | (rename_i ra hg _ _ _
+    | (rename_i ra hg _ _ _ _
        exact AllRa.of_ras (h.setRa (chan_inv _ (h.get hg))) rfl)
 
 /-- a state update moves the last height and un-freezes the client -/
